@@ -42,6 +42,15 @@ def layouts(tier):
 
 
 def cases(tier):
+    # the shared helper utils.truncated_svd: shapes x spectrum x scale x (relative | absolute) threshold x max_rank
+    for m_, n_ in ((4, 6), (6, 4), (5, 5), (1, 3), (3, 1)):
+        for spec in ('decay', 'flat', 'gap'):
+            for scale in (1.0, 1e-13, 1e10):
+                for c in (False, True):
+                    for rel in (True, False):
+                        for thr in (0, 1e-12, 1e-3, 0.05, 0.5):
+                            for mr in (INF, 1, 2, 3):
+                                yield {'ep': 'tsvd', 'm': m_, 'n': n_, 'spec': spec, 'scale': scale, 'c': c, 'rel': rel, 'thr': thr, 'mr': mr}
     for sites in layouts(tier):
         d = len(sites)
         for fam in ('decay', 'gauss', 'dominant', 'lowrank'):
@@ -89,8 +98,46 @@ def make_tensor(case, rng):
     raise ValueError(fam)
 
 
+def run_tsvd(case, seed):
+    import scikit_tt.utils as utl
+    r = R(case)
+    rng = rng_for({k: case[k] for k in ('m', 'n', 'spec', 'scale', 'c')}, seed)
+    m, n = case['m'], case['n']
+    k = min(m, n)
+
+    def ortho(p, q):
+        a = rng.standard_normal((p, q)) + (1j * rng.standard_normal((p, q)) if case['c'] else 0)
+        return np.linalg.qr(a)[0]
+    s = {'decay': 10.0 ** (-np.arange(k)), 'flat': np.ones(k), 'gap': np.array([1.0, 0.8, 0.6] + [1e-9] * max(0, k - 3))[:k]}[case['spec']]
+    s = s * case['scale']
+    A = (ortho(m, k) * s) @ ortho(n, k).conj().T
+    thr, mr, rel = case['thr'], case['mr'], case['rel']
+    # the cut must not fall on a singular value (the rule is a strict comparison)
+    v_ = s / s[0] if rel else s
+    if thr != 0 and np.any(np.abs(np.log10(np.maximum(v_, 1e-300) / thr)) < 0.2):
+        r.skipped += 1
+        return r
+    keep = k if thr == 0 else int(np.sum(v_ > thr))
+    keep = min(keep, mr) if mr != INF else keep
+    r.nontrivial = keep < k
+    key = 'truncated_svd:' + ('rel' if rel else 'abs')
+    A0 = A.copy()
+    with r.op(key + ':call'):
+        u, sv, v = utl.truncated_svd(np.array(A), threshold=thr, max_rank=mr, rel_truncation=rel)
+        if r.true(key + ':rank', len(sv) == keep and u.shape == (m, keep) and v.shape == (keep, n),
+                  'kept %d expected %d (scale %g, threshold %g %s, max_rank %s)' % (len(sv), keep, case['scale'], thr, 'rel' if rel else 'abs', mr)):
+            r.close(key + ':singular-values', np.asarray(sv) / s[0], s[:keep] / s[0], 1e-10)
+            r.close(key + ':u-orthonormal', u.conj().T @ u, np.eye(keep), 1e-10)
+            r.close(key + ':v-orthonormal', v @ v.conj().T, np.eye(keep), 1e-10)
+            err = np.linalg.norm(A0 - (u * sv) @ v)
+            r.le(key + ':best-approximation', err, np.sqrt(np.sum(s[keep:] ** 2)) * (1 + 1e-8), 1e-10 * s[0])
+    return r
+
+
 def run_case(case, seed):
     from scikit_tt.tensor_train import TT
+    if case['ep'] == 'tsvd':
+        return run_tsvd(case, seed)
     r = R(case)
     rng = rng_for({k: case[k] for k in ('sites', 'fam', 'c')}, seed)   # same tensor for all settings of a layout
     x = make_tensor(case, rng)
@@ -99,6 +146,7 @@ def run_case(case, seed):
     nx = np.linalg.norm(x.ravel())
     sv = [None] + [unfolding_svals(x, d, k) for k in range(1, d)]
     caps = mr if isinstance(mr, list) else [1] + [mr] * (d - 1) + [1]
+    mr_arg = list(mr) if isinstance(mr, list) else mr          # the object handed to the library (a per-bond list is an input)
     key = 'trunc:' + ep
     tail = lambda k, rk: float(np.sum(sv[k][int(rk):] ** 2)) if rk != INF else 0.0
     bounded = True
@@ -120,19 +168,21 @@ def run_case(case, seed):
                 cores[i] = np.tensordot(cores[i], G, axes=(3, 0))
                 cores[i + 1] = np.tensordot(np.linalg.inv(G), cores[i + 1], axes=(1, 0))
             if ep == 'cores':
-                T = TT(cores, max_rank=mr)
+                T = TT(cores, max_rank=mr_arg)
             else:
                 T = tt_from(cores)
                 if ep == 'ortho':
-                    T.ortho(max_rank=mr)
+                    T.ortho(max_rank=mr_arg)
                 elif ep == 'right_on_left':
-                    T.ortho_left(); T.ortho_right(max_rank=mr)
+                    T.ortho_left(); T.ortho_right(max_rank=mr_arg)
                 elif ep == 'left_on_right':
-                    T.ortho_right(); T.ortho_left(max_rank=mr)
+                    T.ortho_right(); T.ortho_left(max_rank=mr_arg)
                 elif ep == 'right_raw':
-                    T.ortho_right(max_rank=mr); bounded = False
+                    T.ortho_right(max_rank=mr_arg); bounded = False
                 elif ep == 'left_raw':
-                    T.ortho_left(max_rank=mr); bounded = False
+                    T.ortho_left(max_rank=mr_arg); bounded = False
+        if isinstance(mr, list):
+            r.true(key + ':cap-list-unchanged', mr_arg == list(mr), 'the per-bond max_rank list was modified: %s -> %s' % (mr, mr_arg))
         mp = meta_problem(T)
         if not r.true(key + ':meta', mp is None, mp):
             return r
